@@ -59,7 +59,9 @@ func c13Files(s1, s2 string, errs int) map[string]string {
 	docA := "/**\n * @param? a\n * @param? l\n * @param? m\n * @param? n\n * @param? x\n * @param? x_1\n */\n"
 	useAll := "{if false}{$a}{$l}{$m}{$n}{$x}{$x_1}{/if}"
 	a := "{namespace a}\n" + docA + "{template .main}\n" + s1 + s2 + useAll + "\n{/template}\n/** */\n{template .local}\nlocal\n{/template}\n"
-	b := "{namespace b}\n/** @param? p */\n{template .x}\n[{$p ?: 'np'}]{call c.y/}\n{/template}\n"
+	b := "{namespace b}\n/** @param? p */\n{template .x}\n[{$p ?: 'np'}]{call c.y/}\n{/template}\n" +
+		// header params and no soydoc: the registry rewrites this template's tree when it is added
+		"{template .hdr}\n{@param? h: ?}\n<{$h ?: 'nh'}>\n{/template}\n"
 	cc := "{namespace c}\n/**\n * @param? q\n * @param? a\n */\n{template .y}\n({$q ?: 'nq'}{$a ?: ''})\n{/template}\n"
 	if errs&1 != 0 {
 		b += "/** */\n{template .bad}\n{if}\n{/template}\n" // syntax error in b
@@ -74,15 +76,30 @@ func c13Files(s1, s2 string, errs int) map[string]string {
 }
 
 // c13Run compiles, renders and generates JS; returns one observation string per aspect.
-func c13Run(files map[string]string, order []string) map[string]string {
+func c13Run(files map[string]string, order []string, recompile bool) map[string]string {
+	// every pipeline execution starts from the package-level state of a fresh process; what a
+	// first use leaves behind is observed by the repetitions at the end.
+	restorePackageState()
 	obs := map[string]string{}
-	b := soy.NewBundle().AddGlobalsMap(data.Map{"G_ONE": data.Int(1), "G.two": data.String("two"), "G_MAP": data.Map{"q": data.Int(1), "p": data.List{data.Int(2)}}})
-	for _, n := range order {
-		b = b.AddTemplateString(n, files[n])
+	compile := func() (*template.Registry, error) {
+		b := soy.NewBundle().AddGlobalsMap(data.Map{"G_ONE": data.Int(1), "G.two": data.String("two"), "G_MAP": data.Map{"q": data.Int(1), "p": data.List{data.Int(2)}}})
+		for _, n := range order {
+			b = b.AddTemplateString(n, files[n])
+		}
+		return b.Compile()
 	}
-	reg, err := b.Compile()
+	reg, err := compile()
 	if err != nil {
 		obs["compile"] = "error: " + err.Error()
+		// a second compilation of the same sources in the same process reports the same error
+		if !recompile {
+			return obs
+		}
+		if _, err2 := compile(); err2 != nil {
+			obs["again:compile"] = "error: " + err2.Error()
+		} else {
+			obs["again:compile"] = "ok"
+		}
 		return obs
 	}
 	obs["compile"] = "ok"
@@ -130,6 +147,18 @@ func c13Run(files map[string]string, order []string) map[string]string {
 		err := tofu.NewRenderer("a.main").Inject(data.Map{"inj": data.String("I")}).Execute(&buf, d)
 		obs["again:render data0 msgs=false"] = buf.String() + errClass(err)
 	}
+	// a second compilation of the same sources in the same process: same decision, same output.
+	if !recompile {
+		return obs
+	}
+	if reg2, err := compile(); err != nil {
+		obs["again:compile"] = "error: " + err.Error()
+	} else {
+		obs["again:compile"] = "ok"
+		var buf bytes.Buffer
+		err := soyhtml.NewTofu(reg2).NewRenderer("a.main").Inject(data.Map{"inj": data.String("I")}).Execute(&buf, d)
+		obs["again2:render data0 msgs=false"] = buf.String() + errClass(err)
+	}
 	return obs
 }
 
@@ -151,6 +180,7 @@ func c13ErrorBundles() map[string]string {
 }
 
 func checkC13(c *Ctx) {
+	snapshotPackageState()
 	c13ErrorTexts(c)
 	snips := c13Snippets()
 	names := []string{"a.soy", "b.soy", "c.soy"}
@@ -194,6 +224,9 @@ func checkC13(c *Ctx) {
 							return
 						}
 						for k, want := range first {
+							if _, ok := got[k]; !ok && (k == "again:compile" || strings.HasPrefix(k, "again2:")) {
+								continue // the second compilation runs in the canonical-order executions only
+							}
 							if got[k] != want {
 								c.Violate("the same sources in the same order always yield the same result (every map iteration order)", "mismatch",
 									"map-order:"+aspectClass(k)+":"+sig, cs, clip(want), clip(got[k])+fmt.Sprintf(" under map order %v", prefix))
@@ -207,7 +240,10 @@ func checkC13(c *Ctx) {
 						if pi == 0 {
 							b = bound0
 						}
-						st := explore(vrt.Options{Fuel: 20000000, MapChoice: true, FixedSched: true}, b, capExecs, func() { got = c13Run(files, order) },
+						// the second compilation is part of the canonical-order executions only (the two
+						// determinism runs and the root): it doubles the cost of an execution.
+						nexec := 0
+						st := explore(vrt.Options{Fuel: 20000000, MapChoice: true, FixedSched: true}, b, capExecs, func() { nexec++; got = c13Run(files, order, nexec <= 3) },
 							func(v vrt.Verdict, prefix []int) { check(v, prefix, got) })
 						c.Count("map_orders_explored", st.Execs)
 						c.Max("max_map_choice_points", int64(st.MaxPoints))
@@ -217,7 +253,7 @@ func checkC13(c *Ctx) {
 					} else {
 						for rep := 0; rep < 6; rep++ {
 							var got map[string]string
-							v := vrt.Run(vrt.Options{}, func() { got = c13Run(files, order) })
+							v := vrt.Run(vrt.Options{}, func() { got = c13Run(files, order, rep == 0) })
 							check(v, nil, got)
 						}
 					}
@@ -226,9 +262,9 @@ func checkC13(c *Ctx) {
 					}
 					// repetitions within one process
 					for k, v := range first {
-						if strings.HasPrefix(k, "again:") && first[strings.TrimPrefix(k, "again:")] != v {
-							c.Violate("repeating the same emission or render in one process yields byte-identical results", "mismatch", "repetition:"+aspectClass(strings.TrimPrefix(k, "again:"))+":"+sig, cs,
-								clip(first[strings.TrimPrefix(k, "again:")]), clip(v))
+						k0 := strings.TrimPrefix(strings.TrimPrefix(k, "again:"), "again2:")
+						if k0 != k && first[k0] != v {
+							c.Violate("repeating the same compilation, emission or render in one process yields byte-identical results", "mismatch", "repetition:"+aspectClass(k0)+":"+sig, cs, clip(first[k0]), clip(v))
 						}
 					}
 					// across insertion orders
@@ -244,7 +280,7 @@ func checkC13(c *Ctx) {
 						continue
 					}
 					for k, want := range base {
-						if k == "compile" {
+						if k == "compile" || k == "again:compile" {
 							continue
 						}
 						if first[k] != want {
